@@ -301,7 +301,7 @@ def gdb_top_frame(binary, text, mode):
             pass
 
 
-def crash_signature(binary, text, mode, rc, err, thrown, timeout):
+def crash_signature(binary, text, mode, rc, err, thrown, timeout, shrink=True):
     """stable name of a crash: exception class + triggering command kind + logic, or signal + crashing function"""
     def once(t):
         r = (run_file if mode == "F" else run_pipe)(binary, t, timeout)
@@ -309,8 +309,8 @@ def crash_signature(binary, text, mode, rc, err, thrown, timeout):
             return False
         _, _, th = classify(r[1], r[2], r[0])
         return (r[0] == rc) and (th == thrown)
-    small = shrink_text(text, once, budget=60)
-    if not (once(small) and once(small)):      # flaky (uninitialised memory): keep the original input as the replay
+    small = shrink_text(text, once, budget=40) if shrink else text
+    if shrink and not (once(small) and once(small)):      # flaky (uninitialised memory): keep the original input as the replay
         small = text
     if "%" in small:
         if not once(small.replace("%", "P")) and not once(small.replace("%", "P")):
@@ -476,7 +476,7 @@ def run(ctx):
     # corpus first
     for p in sorted(glob.glob(os.path.join(vlib.VERIF, "corpus", "C18", "*.smt2"))):
         inputs.append(("corpus", open(p, "rb").read().decode("latin-1")))
-    n_t, n_g, n_r = (90, 25, 65) if ctx.quick else (1200, 300, 1200)
+    n_t, n_g, n_r = (70, 20, 50) if ctx.quick else (1200, 300, 1200)
     for _ in range(n_t):
         cmds = templates(rng)
         t = "\n".join(cmds) + "\n"
@@ -538,7 +538,7 @@ def run(ctx):
                     ctx.count("abnormal-ending-same-class-as-earlier")
                     continue
                 coarse.add(key)
-                sig, small = crash_signature(binary, text, mode, rc, err, thrown, t_limit)
+                sig, small = crash_signature(binary, text, mode, rc, err, thrown, t_limit, shrink=(kind != "corpus"))
                 if sig not in seen_sigs:
                     seen_sigs[sig] = small
                     r2 = runner(binary, small, t_limit)
